@@ -208,7 +208,9 @@ def execute(case):
             if e:
                 errs.append((f, f"frame {f}: {e}"))
         if not errs and case.get("labels_too"):
-            labels = I.run_predictor(mk(), cfg["provider"], path, make_labels=True)
+            # second pass: label assembly, and every batch forwarded twice through the inference model (2-step call history:
+            # inputs must stay untouched, the second answer must equal the first)
+            labels = I.run_predictor(mk(), cfg["provider"], path, make_labels=True, twice=True)
             byf = {int(lf.frame_idx): [inst.numpy() for inst in lf.instances] for lf in labels}
             for f in range(len(frames)):
                 e = match_sets(byf.get(f, []), truth[f], tol)
